@@ -130,7 +130,19 @@ def core_kind(r):
     if t == "unary":
         return core_kind(r[2]) if r[1] in ("neg", "abs") else None
     if t == "reduce":
-        return "T" if r[1] in CORE_RED and not r[4] and core_kind(r[2]) == "T" else None
+        if not (r[1] in CORE_RED and not r[4] and core_kind(r[2]) == "T"):
+            return None
+        # the reduced variables (given by NAME) must really be inputs of the argument, syntactically and after
+        # eager evaluation (which may drop inputs the value does not depend on: `.reduce(op, "k")` then
+        # raises KeyError — a decline by design, so such expressions are outside the fragment)
+        try:
+            have = set(syntax(r[2]).inputs)
+            s_, v_ = evaluate(r[2])
+            if s_ == "value":
+                have &= set(v_.inputs)
+        except Exception:
+            return None
+        return "T" if r[3] and set(r[3]) <= have else None
     if t == "subs":
         if not all(v[0] in ("num", "var", "tensor") for _, v in r[2]):
             return None
@@ -417,6 +429,8 @@ def disagrees(ctx, recipe, env=None):
         return True
     if impl is None:
         return False
+    if beyond_float(recipe, env or {}):
+        return False
     model = ser.parse_table(ctx.driver.ask1(
         f"C01 denote {sx(c.wire)} {sx(ser.ins_wire(c.ins))} {sx(ser.env_wire(c.env))}"))
     if model is None or any(m is None for m in model):
@@ -507,6 +521,12 @@ def run_cases(ctx, cases):
             ctx.case()
             continue
         ok, bad = ser.tables_equal(impl, model)
+        if not ok and beyond_float(c.recipe, c.env):
+            # some intermediate value leaves the range where float64 is exact on integers/dyadics: the
+            # exact comparison is meaningless there (not a claim about funsor)
+            ctx.count(f"{st}:beyond-exact-float64")
+            ctx.case()
+            continue
         if not ok:
             small = gen_terms.shrink(c.recipe, lambda r: disagrees(ctx, r, c.env))
             etab, eins = denote_table(ctx, small, c.env)
@@ -530,6 +550,23 @@ def run_cases(ctx, cases):
         ctx.count(f"{st}:result:{type(c.val).__name__}")
         ctx.case(sample={"stream": st, "expr": gen_terms.python_of(c.recipe)[:300], "inputs": c.ins},
                  nontrivial_key=repr(gen_terms.describe(c.recipe)) if nontrivial else None)
+
+
+def beyond_float(recipe, env):
+    """True if some sub-expression takes a value of magnitude > 2**50 somewhere (checked only on a mismatch)."""
+    for sub in subrecipes(recipe):
+        try:
+            syn = syntax(sub)
+            ins = [(k, int(v.size)) for k, v in syn.inputs.items() if isinstance(v.dtype, int) and not v.shape]
+            if any(k not in env and (v.dtype == "real" or v.shape) for k, v in syn.inputs.items()):
+                continue
+            for p in itertools.product(*[range(s_) for _, s_ in ins]):
+                v = np.asarray(py_eval(sub, {**env, **{n: i for (n, _), i in zip(ins, p)}}), dtype=float)
+                if v.size and np.nanmax(np.abs(np.where(np.isfinite(v), v, 0.0))) > 2.0 ** 50:
+                    return True
+        except Exception:
+            continue
+    return False
 
 
 def _incomplete(r):
@@ -730,7 +767,7 @@ def correspond(ctx):
         "Every case is decided on its whole input space against Lean `denote`; peval (the NT model) is echoed against "
         "denote; completeness is gated on the core fragment. Non-trivial = >= 3 constructors and a Tensor result with "
         ">= 1 input or event dim; distinct by full content.")
-    n_rand, n_ext, n_lazy = (1500, 1200, 300) if quick else (30000, 30000, 6000)
+    n_rand, n_ext, n_lazy = (3000, 3000, 600) if quick else (30000, 30000, 6000)
     run_cases(ctx, stream_random(ctx, n_rand))
     run_cases(ctx, stream_ext(ctx, n_ext))
     run_cases(ctx, stream_lazy(ctx, n_lazy))
@@ -803,7 +840,7 @@ def py_disagrees(recipe):
         return True
     except Exception:
         return False
-    return not ser.tables_equal(impl, want)[0]
+    return not ser.tables_equal(impl, want)[0] and not beyond_float(recipe, {})
 
 
 def replay(ctx, doc):
